@@ -16,6 +16,11 @@ OUTCOMES = (
     ("partial-failure", "{ a o { x y } b }", None, {"a": 2, "o": 1, "x": 2}, ("query", "parsing", "validation", "execution")),
     ("mutation", "mutation { m1 { x } m2 { x } m3 }", None, {"m1": 1, "m2": 2, "m3": 1, "x": 1}, ("query", "parsing", "validation", "execution")),
     ("argument-error", "{ a o { x } }", None, {"a": 1, "o": 2}, ("query", "parsing", "validation", "execution")),
+    ("operation-not-found", "query A { a } query B { a }", None, {"a": 1}, ("query", "parsing", "validation"), {"operation_name": "C"}),
+    ("operation-by-name", "query A { a } query B { b o { x } }", None, {"a": 1, "o": 1, "x": 1}, ("query", "parsing", "validation", "execution"), {"operation_name": "B"}),
+    ("ast-document", "{ a o { x y } }", None, {"a": 1, "o": 1, "x": 1}, ("query", "validation", "execution"), {"as_ast": True}),
+    ("ast-validation-error", "{ nope }", None, {}, ("query", "validation"), {"as_ast": True}),
+    ("list-items", "{ l { x y } a }", None, {"a": 1, "l": 1, "x": 1, "y": 1}, ("query", "parsing", "validation", "execution")),
 )
 
 
@@ -40,14 +45,26 @@ def partial_recorder(log, mask):
     return obj
 
 
-def run(cfg, query, variables, kinds, sched, n_instr, n_mw, partial=None, ppos=0):
+def run(cfg, query, variables, kinds, sched, n_instr, n_mw, partial=None, ppos=0, extra=None, shared=False):
+    extra = dict(extra or {})
+    if extra.pop("as_ast", False):
+        from py_gql.lang import parse
+        query = parse(query)
+    W.SHARED_RESOLVER = shared
+    try:
+        return _run(cfg, query, variables, kinds, sched, n_instr, n_mw, partial, ppos, extra)
+    finally:
+        W.SHARED_RESOLVER = False
+
+
+def _run(cfg, query, variables, kinds, sched, n_instr, n_mw, partial, ppos, extra):
     log = []
     recs = [W.Recorder(log, "i%d" % i) for i in range(n_instr)]
     if partial is not None:
         recs.insert(ppos, partial_recorder(log, partial))
     instr = recs[0] if len(recs) == 1 else MultiInstrumentation(*recs)
     mws = [W.make_middleware(log, "mw%d" % i) for i in range(n_mw)]
-    kw = dict(instrumentation=instr, middlewares=mws, variables=variables, log=log)
+    kw = dict(instrumentation=instr, middlewares=mws, variables=variables, log=log, **extra)
     if cfg == 0:
         got, w = W.run_blocking(kinds, query, BlockingExecutor, **kw)
     elif cfg == 1:
@@ -139,23 +156,27 @@ def check_log(log, n_instr, n_mw, stages, got):
     return ""
 
 
-def _hooks(o: int, cfg: int, ni: int, nm: int, s0: int, s1: int, s2: int, s3: int, s4: int, s5: int, pv: int = 0, pp: int = 0) -> bool:
+def _hooks(o: int, cfg: int, ni: int, nm: int, s0: int, s1: int, s2: int, s3: int, s4: int, s5: int, pv: int = 0, pp: int = 0, shared: bool = False) -> bool:
     """
     pre: 0 <= o < len(OUTCOMES) and 0 <= cfg <= 3 and 1 <= ni <= 3 and 0 <= nm <= 3 and 0 <= pv < len(PARTIALS) and 0 <= pp <= ni and (pv > 0 or pp == 0)
-    pre: pv == 0 or thorough() or (ni == 1 and nm == 0 and s1 == 0 and s2 == 0)
+    pre: pv == 0 or (ni <= 2 and nm <= 1 and (thorough() or (ni == 1 and nm == 0 and s1 == 0 and s2 == 0 and not shared)))
     pre: 0 <= s0 <= 5 and 0 <= s1 <= 4 and 0 <= s2 <= 3 and 0 <= s3 <= 2 and 0 <= s4 <= 1 and s5 == 0
     pre: shard_of(o * 4 + cfg + pv * 7 + s0 * 3)
     pre: ni == 1 or nm <= 1 or thorough()
+    pre: not shared or thorough() or (ni == 1 and nm <= 1 and pv == 0)
     post: _
     """
-    label, query, variables, kinds, stages = pick(o, OUTCOMES)
+    outcome = pick(o, OUTCOMES)
+    label, query, variables, kinds, stages = outcome[:5]
+    extra = outcome[5] if len(outcome) > 5 else None
+    SH = True if shared else False
     C, NI, NM = concrete_int(cfg, 0, 3), concrete_int(ni, 1, 3), concrete_int(nm, 0, 3)
     PV, PP = pick(pv, PARTIALS), concrete_int(pp, 0, 3)
     sched = [s0, s1, s2, s3, s4, s5]
     if C <= 1 and any(s != 0 for s in sched):
         return result(True, False)
     with untraced():
-        got, w, log = run(C, query, variables, kinds, sched, NI, NM, PV, PP)
+        got, w, log = run(C, query, variables, kinds, sched, NI, NM, PV, PP, extra, SH)
         if got[0] == "pruned":
             return result(True, False)
         steps = getattr(w, "steps", 0)
@@ -171,13 +192,14 @@ def _hooks(o: int, cfg: int, ni: int, nm: int, s0: int, s1: int, s2: int, s3: in
 
 CONDITIONS = [
     Cond(
-        name="hooks", fn=_hooks, quick=200, thorough=900, per_path=60, shards_quick=16, shards_thorough=32,
-        bound="8 request outcomes (syntax / validation / variable error, flat and nested success, partial failure with ResolverError, mutation, failing parent) x 4 configurations "
+        name="hooks", fn=_hooks, quick=300, thorough=900, per_path=60, shards_quick=16, shards_thorough=32,
+        bound="%d request outcomes (syntax / validation / variable error, unknown operation name, operation selected by name, document given as a parsed AST (valid / invalid), flat, nested and list success, "
+              "partial failure with ResolverError, mutation, failing parent) x 4 configurations x separate resolver functions or ONE function object shared by every custom field (quick: shared only with one instrumentation and <= 1 middleware) " % len(OUTCOMES) +
               "x 1..3 stacked instrumentations x 0..3 middlewares (quick: not both > 1) x EVERY completion order "
               "x an extra stacked instrumentation that overrides only SOME hooks (%d patterns: each single hook, all but one, starts, ends, field hooks, stage hooks) at every stack position "
-              "(quick: next to one full recorder, no middleware, first completion choice free only)" % (len(PARTIALS) - 1),
-        symbolic={"o": "choice: outcome", "cfg": "choice: configuration", "ni": "choice: stacked instrumentations", "nm": "choice: middlewares", "s0..s5": "choice: completion order", "pv,pp": "choice: partially overriding instrumentation and its stack position"},
+              "(next to <= 2 full recorders and <= 1 middleware; quick: one full recorder, no middleware, separate resolvers, first completion choice free only)" % (len(PARTIALS) - 1),
+        symbolic={"o": "choice: outcome", "cfg": "choice: configuration", "ni": "choice: stacked instrumentations", "nm": "choice: middlewares", "s0..s5": "choice: completion order", "pv,pp": "choice: partially overriding instrumentation and its stack position", "shared": "choice: one resolver function for all fields"},
         assumptions=["as C08 (stub pool, DetLoop)", "oracle: pushdown checker over the recorded event log (check_log)"],
-        witness={"o": 4, "cfg": 2, "ni": 1, "nm": 0, "s0": 0, "s1": 0, "s2": 0, "s3": 0, "s4": 0, "s5": 0, "pv": 10, "pp": 1},
+        witness={"o": 4, "cfg": 2, "ni": 1, "nm": 0, "s0": 0, "s1": 0, "s2": 0, "s3": 0, "s4": 0, "s5": 0, "pv": 10, "pp": 1, "shared": False},
     ),
 ]
